@@ -47,6 +47,9 @@ def load_sources():
 
 
 def _collect(sub, cname, sources):
+    if isinstance(sub, ast.Assign) and len(sub.targets) == 1 and isinstance(sub.targets[0], ast.Name):
+        # class attributes (read by the data-type layer, pyvc/dtypes.py): name -> value expression
+        sources.setdefault("$classattr", {}).setdefault((cname, sub.targets[0].id), sub.value)
     if isinstance(sub, ast.FunctionDef):
         sources.setdefault(cname + "." + sub.name, sub)
     elif isinstance(sub, ast.Assign) and len(sub.targets) == 1 and \
@@ -268,6 +271,9 @@ def _describe_model(eng, model, pre):
     for nm, v in pre.env.items():
         if v.kind == "any":
             out.setdefault("$any", {})[nm] = {"to_key": val(TK(v.z)), "key_ok": val(REPK(v.z))}
+            from .dtypes import GHOSTS
+            for gn, gf in GHOSTS.items():       # the Python-object description (data-type layer)
+                out["$any"][nm][gn] = val(gf(v.z))
     for nm, v in pre.env.items():
         try:
             out[nm] = dump(v)
@@ -602,7 +608,11 @@ def verify(targets, tier="quick", mode="normal", tags=None, jobs=16):
         if ok:
             functions.append(r["function"] + ("" if mode == "normal" else "@" + mode))
         st += r.get("solver_time", 0.0)
-    r = Result(obligations, functions, list(ASSUMPTIONS), list(TRUSTED),
+    trusted = list(TRUSTED)
+    if any(isinstance(cons[n].cls, str) and cons[n].cls.startswith("dt:") for n in targets if n in cons):
+        from .dtypes import TRUSTED_DT
+        trusted += TRUSTED_DT
+    r = Result(obligations, functions, list(ASSUMPTIONS), trusted,
                {"z3": st}, errors)
     r.notes = notes
     return r
